@@ -26,6 +26,7 @@ package discovery
 //@   props C13 C10
 //@   modifies nothing
 //@   ensures [total] len(msg) >= 33 && (len(msg)-33) % 2 == 0 && msgTypeMembership <= msgType(msg[0]) && msgType(msg[0]) <= msgTypeResponse ==> result.3 == nil
+//@   ensures [error] result.3 != nil ==> result.0 == msgTypeNone && len(result.1) == 0
 //@   ensures [len]   result.3 == nil ==> len(msg) >= 33 && (len(msg)-33) % 2 == 0
 //@   ensures [type]  result.3 == nil ==> result.0 == msgType(msg[0]) && msgTypeMembership <= result.0 && result.0 <= msgTypeResponse
 //@   ensures [tag]   result.3 == nil ==> len(result.1) == 32 && forall j int :: 0 <= j && j < 32 ==> result.1[j] == msg[1+j]
@@ -45,3 +46,18 @@ package discovery
 //@   assert [type]  t2 == t
 //@   assert [tag]   tg2 == tg
 //@   assert [peers] len(p2) == len(p) && forall i int :: 0 <= i && i < len(p) ==> p2[i] == p[i]
+
+// ---- synchroniser state and message handling (C10, C07) -------------------------------------------------------
+
+//@ type Member
+//@   field tagsToIDsAndTopics  syncmap tag topicAndID keylen 32
+//@   field topicsToMemberViews syncmap topic *topicPeerView
+//@   invariant [config] this.Logger != nil && this.Send != nil && this.Broadcast != nil
+//@
+//@ type topicPeerView
+//@   field memberToView      syncmap uint16 []uint16
+//@   field responsesReceived syncmap uint16 struct{}
+//@   invariant [maps] this.memberToView != nil && this.responsesReceived != nil
+//@
+//@ func (*Member).HandleMessage
+//@   props C10 C07
